@@ -177,7 +177,12 @@ SortedCfg(req) == [attrs |-> <<<<E("sorted", IF req = <<>> THEN "path" ELSE "lis
                    varattr |-> NoVarAttr]
 SortedReqs == {<<"name">>, <<"value">>, <<"name", "value">>, <<"value", "name">>, <<>>}
 Perms(n) == {p \in [1..n -> 1..n] : \A i, j \in 1..n : i # j => p[i] # p[j]}
-C14Vals(r) == IF Lims[r].tmin < 0 THEN {<<1, 2, 3, 5>>, <<-7, -2, 0, 4>>, <<-3, -2, -1, 0>>} ELSE {<<1, 2, 3, 5>>, <<0, 1, 2, 9>>}
+\* value families (ascending): small ones, the limits of the domain (a comparison by subtraction overflows
+\* there), and an implicit run 0, 1 that an explicit negative value follows or precedes
+C14Vals(r) == (IF Lims[r].tmin < 0 THEN {<<1, 2, 3, 5>>, <<-7, -2, 0, 4>>, <<-3, -2, -1, 0>>, <<-5, -4, 0, 1>>,
+                                          <<Lims[r].lo, -1, 0, Lims[r].hi>>}
+               ELSE {<<1, 2, 3, 5>>, <<0, 1, 2, 9>>})
+              \cup {<<Lims[r].lo, Lims[r].lo + 1, Lims[r].hi - 1, Lims[r].hi>>}
 C14Decls(r) ==
   \* n variants with the values vals[1..n] declared in the order p; names chosen by the rotation (k, j)
   UNION {{Enum(r, [i \in 1..n |-> Var(i, "unit",
@@ -193,13 +198,13 @@ ReprsFor(prop) ==
   IF Tier = "thorough"
   THEN CASE prop = "C10" -> {"i8", "u16", "i64", "u128"}
          [] prop = "C13" -> {"i16", "u8", "i128"}
-         [] prop = "C14" -> {"u8", "i32", "i64", "usize"}
+         [] prop = "C14" -> {"u8", "i32", "i64", "usize", "isize", "i128"}
          [] OTHER -> {ReprOrder[i] : i \in 1..12}
   ELSE CASE prop = "C10" -> {"i8", "u64"}
          [] prop = "C11" -> {ReprOrder[i] : i \in 1..12}
-         [] prop = "C12" -> {"u8", "i64", "u64", "i128"}
+         [] prop = "C12" -> {"u8", "i64", "u64", "usize", "i128"}
          [] prop = "C13" -> {"i16"}
-         [] prop = "C14" -> {"u8", "i32"}
+         [] prop = "C14" -> {"u8", "i64"}
 CONSTANT Prop       \* which property's corpus this run generates
 Cases == CASE Prop = "C10" -> UNION {C10All(r) : r \in ReprsFor("C10")}
            [] Prop = "C11" -> UNION {C11All(r) : r \in ReprsFor("C11")} \cup C11Big
